@@ -1,12 +1,179 @@
 import IpaVerif.Model.Util
-/-! Line-protocol handlers for property C09 (model side). Import-free. -/
+import IpaVerif.Model.Serde
+import IpaVerif.Model.Ristretto
+import IpaVerif.Generated.PrimeFields
+import IpaVerif.Generated.C09Serde
+/-!
+Line-protocol handlers for property C09 (model side). Import-free.
+
+Requests of the serde suites (`c09_small`, `c09_large`):
+
+* `c09.blk <Ty> <suffix-hex|->`  for every first byte `b` in 0..255 decode `[b] ++ suffix`; response:
+  256 entries joined by `,` with runs of equal entries compressed as `<entry>*<n>`; an entry is `e`
+  (rejected) or the decoded leaves in hex joined by `:` followed by `!` if re-encoding differs.
+* `c09.de <Ty> <hex> [ge-order]` → `ok <leaves> <re-encoded hex>` | `err` (the optional marker names
+  the input class of known finding F9 and is ignored)
+* `c09.en <Ty> <leaves>` → `<hex>`
+* `c09.rp de <hex>`     → `ok <re-encoded hex>` | `err`   (RP25519)
+
+`<Ty>` is `Leaf`, `share:Leaf`, `arrN:Leaf`, ….
+-/
 namespace IpaVerif.Driver.C09
-open IpaVerif.Util
+open IpaVerif.Util IpaVerif.Serde
+
+def leafTy (n : String) : Option Ty :=
+  if n == "Boolean" then some .boolean
+  else if n == "Fp25519" then some .fp25519
+  else match IpaVerif.Generated.primeFields.find? (·.name == n) with
+    | some P => some (.prime P)
+    | none => (IpaVerif.Generated.bitTypes.find? (·.name == n)).map .bits
+
+def wrapTy (w : String) (t : Ty) : Option Ty :=
+  if w == "share" then some (.share t)
+  else if w.startsWith "arr" then (w.drop 3).toString.toNat?.map (fun n => .arr n t)
+  else none
+
+/-- `share:arr16:Fp31` → `Ty.share (Ty.arr 16 (Ty.prime fp31))`. -/
+def parseTy (s : String) : Option Ty :=
+  match (s.splitOn ":").reverse with
+  | [] => none
+  | leaf :: wrappers => do
+      let t ← leafTy leaf
+      wrappers.foldlM (fun t w => wrapTy w t) t
+
+def showLeaves (ls : List Nat) : String := String.intercalate ":" (ls.map natHex)
+
+def parseLeaves (s : String) : Option (List Nat) := (s.splitOn ":").mapM parseHexNat
+
+/-- run-length compression of equal neighbouring entries -/
+def rle (xs : List String) : String :=
+  let rec go : List String → Option (String × Nat) → List String → List String
+    | [], none, acc => acc.reverse
+    | [], some (e, n), acc => ((if n == 1 then e else s!"{e}*{n}") :: acc).reverse
+    | x :: xs, none, acc => go xs (some (x, 1)) acc
+    | x :: xs, some (e, n), acc =>
+      if x == e then go xs (some (e, n + 1)) acc
+      else go xs (some (x, 1)) ((if n == 1 then e else s!"{e}*{n}") :: acc)
+  String.intercalate "," (go xs none [])
+
+def entryOf (t : Ty) (bs : List Nat) : String :=
+  match (codecOf t).dec bs with
+  | .ok v => showLeaves (leaves t v) ++ (if (codecOf t).enc v == bs then "" else "!")
+  | .err => "e"
+  | .panic => "panic"
+
+def serde (op : String) (t : Ty) (args : List String) : Option String :=
+  match op, args with
+  | "blk", [suffix] => do
+      let suf ← parseHexBytes suffix
+      pure (rle ((List.range 256).map (fun b => entryOf t (b :: suf))))
+  | "de", h :: _ => do
+      let bs ← parseHexBytes h
+      match (codecOf t).dec bs with
+      | .ok v => pure s!"ok {showLeaves (leaves t v)} {bytesHex ((codecOf t).enc v)}"
+      | .err => pure "err"
+      | .panic => pure "panic"
+  | "en", [l] => do
+      let ls ← parseLeaves l
+      let (v, rest) ← build t ls
+      if rest.isEmpty then pure (bytesHex ((codecOf t).enc v)) else none
+  | _, _ => none
+
+/-- `RP25519::deserialize` + re-serialize, with dalek's `decompress` replaced by the RFC 9496 reference;
+the re-encoding of an accepted string is the string itself (`rp25519_lawful`). -/
+def rp (op : String) (args : List String) : Option String :=
+  match op, args with
+  | "de", [h] => do
+      let bs ← parseHexBytes h
+      pure (if IpaVerif.Ristretto.valid bs then s!"ok {bytesHex bs}" else "err")
+  | _, _ => none
 
 /-- `some response` if the request belongs to this property, else `none`. -/
-def handle (_toks : List String) : Option String := none
+def handle (toks : List String) : Option String :=
+  match toks with
+  | "c09.rp" :: op :: args => some ((rp op args).getD "bad-request")
+  | op :: ty :: args =>
+    if op == "c09.blk" || op == "c09.de" || op == "c09.en" then
+      match parseTy ty with
+      | some t => some ((serde (op.drop 4).toString t args).getD "bad-request")
+      | none => some "bad-request"
+    else none
+  | _ => none
+
+/-! ### Spec-side oracle: "accepted iff canonical; value equals the little-endian integer;
+re-encoding reproduces the input; the encoding is the concatenation of the leaves' LE bytes" —
+written on the flat list of (size, bound) of the leaves, independently of `codecOf`. -/
+
+/-- (bytes, exclusive bound on the little-endian integer) of every leaf in wire order. -/
+def leafSpecs : Ty → List (Nat × Nat)
+  | .prime P => [(P.storeBits / 8, P.p)]
+  | .boolean => [(1, 2)]
+  | .bits T => [(T.bytes, 2 ^ T.bits)]
+  | .fp25519 => [(32, 2 ^ 252 + 27742317777372353535851937790883648493)]
+  | .share t => leafSpecs t ++ leafSpecs t
+  | .arr n t => (List.replicate n (leafSpecs t)).flatten
+
+def leInt (bs : List Nat) : Nat := bs.foldr (fun b acc => b + 256 * acc) 0
+
+/-- split by the leaf sizes; `none` if the length does not match -/
+def splitLeaves : List (Nat × Nat) → List Nat → Option (List (Nat × Nat))
+  | [], [] => some []
+  | [], _ => none
+  | (sz, bound) :: rest, bs =>
+    if bs.length < sz then none else do
+      let tl ← splitLeaves rest (bs.drop sz)
+      pure ((leInt (bs.take sz), bound) :: tl)
+
+/-- expected response entry for input `bs`: `none` = must be rejected -/
+def specDecode (t : Ty) (bs : List Nat) : Option (List Nat) := do
+  let ls ← splitLeaves (leafSpecs t) bs
+  if ls.all (fun (v, bound) => v < bound) then some (ls.map (·.1)) else none
+
+def specEntry (t : Ty) (bs : List Nat) : String :=
+  match specDecode t bs with
+  | some ls => showLeaves ls
+  | none => "e"
+
+def natBytes (v : Nat) (n : Nat) : List Nat := (List.range n).map (fun i => v / 256 ^ i % 256)
+
+def verdict (b : Bool) (why : String) : Option String :=
+  some (if b then "holds" else "fails " ++ why)
+
+def serdeOracle (op : String) (t : Ty) (args : List String) (impl : String) : Option String :=
+  match op, args with
+  | "blk", [suffix] => do
+      let suf ← parseHexBytes suffix
+      let want := rle ((List.range 256).map (fun b => specEntry t (b :: suf)))
+      verdict (impl == want) "some byte string is accepted although not canonical, rejected although canonical, decoded to a value other than its little-endian integer, or re-encoded differently"
+  | "de", h :: _ => do
+      let bs ← parseHexBytes h
+      match specDecode t bs with
+      | some ls => verdict (impl == s!"ok {showLeaves ls} {bytesHex bs}") "a canonical encoding must be accepted, decode to its little-endian integer(s) and re-encode to itself"
+      | none => verdict (impl == "err") "a non-canonical byte string (out-of-range integer, non-zero padding, Boolean > 1) must be rejected"
+  | "en", [l] => do
+      let ls ← parseLeaves l
+      let specs := leafSpecs t
+      if ls.length != specs.length then none else
+      if !(ls.zip specs).all (fun (v, (_, bound)) => v < bound) then some "unknown" else
+      let want := ((ls.zip specs).map (fun (v, (sz, _)) => natBytes v sz)).flatten
+      verdict (impl == bytesHex want) "the encoding must be the concatenation of the little-endian encodings of the components, of the advertised length"
+  | _, _ => none
 
 /-- Property oracle on (request, implementation response): `some "holds"`, `some "fails <why>"`, or `none`. -/
-def oracle (_toks : List String) (_impl : String) : Option String := none
+def oracle (toks : List String) (impl : String) : Option String :=
+  match toks with
+  | ["c09.rp", "de", h] =>
+      -- accepted ⇒ the re-encoding is the input (only canonical encodings are accepted); whether a
+      -- rejected string is really non-canonical is dalek's business (hypothesis) — the model above
+      -- cross-checks it against RFC 9496
+      if impl == "err" then some "unknown"
+      else verdict (impl == s!"ok {h}") "an accepted point encoding must re-encode to itself"
+  | op :: ty :: args =>
+    if op == "c09.blk" || op == "c09.de" || op == "c09.en" then
+      match parseTy ty with
+      | some t => some ((serdeOracle (op.drop 4).toString t args impl).getD "unknown")
+      | none => some "unknown"
+    else none
+  | _ => none
 
 end IpaVerif.Driver.C09
